@@ -1007,3 +1007,137 @@ Proof.
   - rewrite (Z _ _ Ey). reflexivity.
   - apply nth_error_None in Ey. lia.
 Qed.
+
+(* ================================================================== (6) location lists: DWARF 2-4 list, tables *)
+
+(* ---- DWARF 2-4: LocationListTable::write_loc, one list ---- *)
+Lemma gwrite_list_v4_raw dbg oe uo asz mk : forall l hb pos bs fx,
+  gwrite_list_v4 dbg oe uo asz mk hb pos l = Ok (bs, fx) -> pos + OW.blen bs < 2 ^ 64 ->
+  exists raws chunks tail,
+    Forall2 (raw_rel dbg oe uo) l raws /\
+    LW.write_list_v4 true (OW.e_be oe) (OW.e_version oe) asz mk hb raws = Ok bs /\
+    bs = concat chunks ++ tail /\ list_laid dbg oe uo pos l chunks fx.
+Proof.
+  induction l as [|g r IH]; intros hb pos bs fx H B.
+  - cbn [gwrite_list_v4] in H. apply bind_ok_inv in H. destruct H as [z1 [E1 H]]. apply bind_ok_inv in H. destruct H as [z2 [E2 H]].
+    injection H as <- <-. rewrite E1 in E2. injection E2 as <-. exists [], [], (z1 ++ z1). split; [constructor|]. split.
+    + cbn [LW.write_list_v4]. rewrite E1. reflexivity.
+    + split; [reflexivity|constructor].
+  - assert (ENT : forall h ex hb' b1b2,
+              h = b1b2 ->
+              (let* en := gentry_tail dbg oe uo pos h ex in
+               let* rest := gwrite_list_v4 dbg oe uo asz mk hb' (pos + UnitWr.blen (fst en)) r in
+               Ok (fst en ++ fst rest, snd en ++ snd rest)) = Ok (bs, fx) ->
+              exists p d offsets rb rfx raws chunks tail,
+                bs = (h ++ p ++ d) ++ rb /\
+                LW.opt_expression true (OW.e_be oe) (OW.e_version oe) d = Ok (p ++ d) /\
+                (exists base f, OW.write_expr dbg oe (Some uo) true base ex = Ok (d, f)) /\
+                Forall2 (raw_rel dbg oe uo) r raws /\
+                LW.write_list_v4 true (OW.e_be oe) (OW.e_version oe) asz mk hb' raws = Ok rb /\
+                rb = concat chunks ++ tail /\
+                (exists efx, fx = efx ++ rfx /\
+                   OP.laid (OW.write_op dbg oe (Some uo) true offsets) (pos + OW.blen h + OW.blen p) ex offsets d efx /\
+                   list_laid dbg oe uo (pos + OW.blen (h ++ p ++ d)) r chunks rfx)).
+    { intros h ex hb' b1b2 _ H'. apply bind_ok_inv in H'. destruct H' as [[eb ef] [Ee H']].
+      apply bind_ok_inv in H'. destruct H' as [[rb rf] [Er H']]. cbn [fst snd] in *. injection H' as <- <-.
+      rewrite OP.blen_app in B.
+      destruct (gentry_tail_raw _ _ _ _ _ _ _ _ Ee ltac:(unfold OW.blen, UnitWr.blen in *; lia)) as [p [d [offsets [-> [Ho [Hw Hl]]]]]].
+      destruct (IH _ _ _ _ Er ltac:(unfold OW.blen, UnitWr.blen in *; lia)) as [raws [chunks [tail [HF [Hwr [Hrb Hll]]]]]].
+      exists p, d, offsets, rb, rf, raws, chunks, tail. repeat (split; [first [reflexivity|eassumption|eauto]|]).
+      exists ef. repeat split; assumption. }
+    destruct g as [a|b e ex|b e ex|b n ex|ex]; cbn [gwrite_list_v4] in H.
+    + apply bind_ok_inv in H. destruct H as [b1 [E1 H]]. apply bind_ok_inv in H. destruct H as [b2 [E2 H]].
+      apply bind_ok_inv in H. destruct H as [[rb rf] [Er H]]. cbn [fst snd] in H. injection H as <- <-.
+      rewrite OP.blen_app in B.
+      destruct (IH _ _ _ _ Er ltac:(unfold OW.blen, UnitWr.blen in *; lia)) as [raws [chunks [tail [HF [Hwr [-> Hll]]]]]].
+      exists (WS.LBase a :: raws), ((b1 ++ b2) :: chunks), tail. split; [constructor; [constructor|exact HF]|]. split.
+      * cbn [LW.write_list_v4]. rewrite E1, E2. cbn [bind]. rewrite Hwr. cbn [bind]. f_equal. rewrite <- ?app_assoc. reflexivity.
+      * split; [cbn [concat]; rewrite <- ?app_assoc; reflexivity|].
+        change rf with ([] ++ rf). constructor; [reflexivity|exact Hll].
+    + destruct (b =? e) eqn:C1; [discriminate|]. destruct (negb hb) eqn:C2; [discriminate|]. destruct (b =? mk) eqn:C3; [discriminate|].
+      apply bind_ok_inv in H. destruct H as [b1 [E1 H]]. apply bind_ok_inv in H. destruct H as [b2 [E2 H]].
+      destruct (ENT _ _ _ _ eq_refl H) as [p [d [offsets [rb [rfx [raws [chunks [tail [-> [Ho [[base [f Hw]] [HF [Hwr [-> [efx [-> [Hl Hll]]]]]]]]]]]]]]]]].
+      exists (WS.LOffsetPair b e d :: raws), (((b1 ++ b2) ++ p ++ d) :: chunks), tail.
+      split; [constructor; [econstructor; exact Hw|exact HF]|]. split.
+      * cbn [LW.write_list_v4]. rewrite C1, C2, C3, E1, E2. cbn [bind]. rewrite Ho. cbn [bind]. rewrite Hwr. cbn [bind].
+        f_equal. rewrite <- ?app_assoc. reflexivity.
+      * split; [cbn [concat]; rewrite <- ?app_assoc; reflexivity|]. constructor; [|exact Hll].
+        cbn [entry_laid]. do 4 eexists. split; [reflexivity|exact Hl].
+    + destruct (WS.addr_eqb b e) eqn:C1; [discriminate|]. destruct hb eqn:C2; [discriminate|].
+      destruct (WS.addr_eqb b (WS.AConst mk)) eqn:C3; [discriminate|].
+      apply bind_ok_inv in H. destruct H as [b1 [E1 H]]. apply bind_ok_inv in H. destruct H as [b2 [E2 H]].
+      destruct (ENT _ _ _ _ eq_refl H) as [p [d [offsets [rb [rfx [raws [chunks [tail [-> [Ho [[base [f Hw]] [HF [Hwr [-> [efx [-> [Hl Hll]]]]]]]]]]]]]]]]].
+      exists (WS.LStartEnd b e d :: raws), (((b1 ++ b2) ++ p ++ d) :: chunks), tail.
+      split; [constructor; [econstructor; exact Hw|exact HF]|]. split.
+      * cbn [LW.write_list_v4]. rewrite C1, C3, E1, E2. cbn [bind]. rewrite Ho. cbn [bind]. rewrite Hwr. cbn [bind].
+        f_equal. rewrite <- ?app_assoc. reflexivity.
+      * split; [cbn [concat]; rewrite <- ?app_assoc; reflexivity|]. constructor; [|exact Hll].
+        cbn [entry_laid]. do 4 eexists. split; [reflexivity|exact Hl].
+    + apply bind_ok_inv in H. destruct H as [en [Een H]].
+      destruct (WS.addr_eqb b en) eqn:C1; [discriminate|]. destruct hb eqn:C2; [discriminate|].
+      destruct (WS.addr_eqb b (WS.AConst mk)) eqn:C3; [discriminate|].
+      apply bind_ok_inv in H. destruct H as [b1 [E1 H]]. apply bind_ok_inv in H. destruct H as [b2 [E2 H]].
+      destruct (ENT _ _ _ _ eq_refl H) as [p [d [offsets [rb [rfx [raws [chunks [tail [-> [Ho [[base [f Hw]] [HF [Hwr [-> [efx [-> [Hl Hll]]]]]]]]]]]]]]]]].
+      exists (WS.LStartLength b n d :: raws), (((b1 ++ b2) ++ p ++ d) :: chunks), tail.
+      split; [constructor; [econstructor; exact Hw|exact HF]|]. split.
+      * cbn [LW.write_list_v4]. rewrite Een. cbn [bind]. rewrite C1, C3, E1, E2. cbn [bind]. rewrite Ho. cbn [bind]. rewrite Hwr. cbn [bind].
+        f_equal. rewrite <- ?app_assoc. reflexivity.
+      * split; [cbn [concat]; rewrite <- ?app_assoc; reflexivity|]. constructor; [|exact Hll].
+        cbn [entry_laid]. do 4 eexists. split; [reflexivity|exact Hl].
+    + discriminate.
+Qed.
+
+(* ---- several lists, and LocationListTable::write as a whole ---- *)
+Lemma gwrite_lists_v4_raw dbg oe uo asz mk hb : forall tbl pos bytes offs fx,
+  gwrite_lists (gwrite_list_v4 dbg oe uo asz mk hb) pos tbl = Ok (bytes, offs, fx) -> pos + OW.blen bytes < 2 ^ 64 ->
+  exists rtbl, Forall2 (Forall2 (raw_rel dbg oe uo)) tbl rtbl /\
+    LW.write_lists_v4 true (OW.e_be oe) (OW.e_version oe) asz mk hb pos rtbl = Ok (bytes, offs).
+Proof.
+  induction tbl as [|l r IH]; intros pos bytes offs fx H B; cbn [gwrite_lists] in H.
+  - injection H as <- <- <-. exists []. split; [constructor|reflexivity].
+  - apply bind_ok_inv in H. destruct H as [[lb lf] [El H]]. apply bind_ok_inv in H. destruct H as [[[rb ro] rf] [Er H]].
+    cbn [fst snd] in *. injection H as <- <- <-. rewrite OP.blen_app in B.
+    destruct (gwrite_list_v4_raw _ _ _ _ _ _ _ _ _ _ El ltac:(unfold OW.blen, UnitWr.blen in *; lia)) as [raws [_ [_ [HF [Hw _]]]]].
+    destruct (IH _ _ _ _ Er ltac:(unfold OW.blen, UnitWr.blen in *; lia)) as [rtbl [HFF Hwr]].
+    exists (raws :: rtbl). split; [constructor; assumption|].
+    cbn [LW.write_lists_v4]. rewrite Hw. cbn [bind]. change (N.of_nat (length lb)) with (UnitWr.blen lb). rewrite Hwr. reflexivity.
+Qed.
+
+Lemma gwrite_lists_v5_raw dbg oe uo asz : forall tbl pos bytes offs fx,
+  gwrite_lists (gwrite_list_v5 dbg oe uo asz) pos tbl = Ok (bytes, offs, fx) -> pos + OW.blen bytes < 2 ^ 64 ->
+  exists rtbl, Forall2 (Forall2 (raw_rel dbg oe uo)) tbl rtbl /\
+    LW.write_lists_v5 true (OW.e_be oe) (OW.e_version oe) asz pos rtbl = Ok (bytes, offs).
+Proof.
+  induction tbl as [|l r IH]; intros pos bytes offs fx H B; cbn [gwrite_lists] in H.
+  - injection H as <- <- <-. exists []. split; [constructor|reflexivity].
+  - apply bind_ok_inv in H. destruct H as [[lb lf] [El H]]. apply bind_ok_inv in H. destruct H as [[[rb ro] rf] [Er H]].
+    cbn [fst snd] in *. injection H as <- <- <-. rewrite OP.blen_app in B.
+    destruct (gwrite_list_v5_raw _ _ _ _ _ _ _ _ El ltac:(unfold OW.blen, UnitWr.blen in *; lia)) as [raws [_ [HF [Hw _]]]].
+    destruct (IH _ _ _ _ Er ltac:(unfold OW.blen, UnitWr.blen in *; lia)) as [rtbl [HFF Hwr]].
+    exists (raws :: rtbl). split; [constructor; assumption|].
+    cbn [LW.write_lists_v5]. rewrite Hw. cbn [bind]. change (N.of_nat (length lb)) with (UnitWr.blen lb). rewrite Hwr. reflexivity.
+Qed.
+
+(* LocationListTable::write of the composed model = C16's table_write on the raw view of the table: same bytes, same
+   LocationListOffsets — so every C16 theorem (write_read_by_reader_v5/_v4, rejects, ambiguity, no_panic) applies to the
+   location lists the composed model writes, with `d` = the bytes each expression is written as *)
+Theorem gloc_table_write_raw dbg oe uo hb start tbl bytes offs fx :
+  gloc_table_write dbg oe uo hb start tbl = Ok (bytes, offs, fx) -> start + 20 + OW.blen bytes < 2 ^ 64 ->
+  exists rtbl, Forall2 (Forall2 (raw_rel dbg oe uo)) tbl rtbl /\
+    LW.table_write true (OW.e_be oe) (OW.e_fmt64 oe) (OW.e_version oe) (OW.e_asize oe) hb start rtbl = Ok (bytes, offs).
+Proof.
+  intros H B. unfold gloc_table_write in H. destruct tbl as [|l r].
+  - injection H as <- <- <-. exists []. split; [constructor|reflexivity].
+  - destruct ((2 <=? OW.e_version oe) && (OW.e_version oe <=? 4)) eqn:V4.
+    + apply bind_ok_inv in H. destruct H as [mk [Em H]].
+      destruct (gwrite_lists_v4_raw _ _ _ _ _ _ _ _ _ _ _ H ltac:(lia)) as [rtbl [HF Hw]].
+      exists rtbl. split; [exact HF|]. inversion HF; subst. unfold LW.table_write. rewrite V4. unfold LW.write_tbl_v4. rewrite Em. exact Hw.
+    + destruct (OW.e_version oe =? 5) eqn:V5; [|discriminate].
+      apply bind_ok_inv in H. destruct H as [[[body bo] bf] [Eb H]]. cbn [fst snd] in H.
+      apply bind_ok_inv in H. destruct H as [il [Ei H]]. injection H as <- <- <-.
+      rewrite !OP.blen_app in B.
+      destruct (gwrite_lists_v5_raw _ _ _ _ _ _ _ _ _ Eb) as [rtbl [HF Hw]].
+      { unfold LW.initial_length_size. destruct (OW.e_fmt64 oe); lia. }
+      exists rtbl. split; [exact HF|]. inversion HF; subst. unfold LW.table_write. rewrite V4, V5. unfold LW.write_tbl_v5. rewrite V5. cbn [negb].
+      rewrite Hw. cbn [bind]. change (N.of_nat (length body)) with (UnitWr.blen body). rewrite Ei. reflexivity.
+Qed.
